@@ -32,7 +32,7 @@ RULE = (
     "tests/FIX44.xml built by the check, CumQty+LeavesQty<=OrderQty, LeavesQty=0 for finished statuses, ExecID never repeats (across reset_messages() and across orders), "
     "OrderID is the same for all reports of the order, processing by the order object raises nothing. "
     "(2) Fidelity: clean session scripts (Hypothesis lists <= 14 quick / 40 thorough over: initiator Logon, application message "
-    "either way, TestRequest either way, Heartbeat either way, optional final Logout from either side; starting counters symmetric "
+    "either way (also one carrying a repeating group that only the initiator's own protocol definition lists), TestRequest either way, Heartbeat either way, optional final Logout from either side; starting counters symmetric "
     "and asymmetric as after a resumed session) replayed against FIXTester(connection=initiator) through its reply / "
     "process_msg_acceptor API and against a real AsyncFIXDummyServer endpoint over the simulated link: the initiator's sent frames "
     "and the frames it receives (field lists without BodyLength, CheckSum, SendingTime), its connection_state and both ends' "
